@@ -230,6 +230,11 @@ def handleRes (t : List String) : Option String :=
       let (_, st2) := runBatch cfg w "B:" false batch st1
       let (pOut, _) := runBatch cfg w "P:" false probes st2
       let pOut := if unstable then pOut.map (fun _ => "P:~") else pOut
+      -- with lowered limits a client's outcome depends on what the other clients have cached
+      -- meanwhile: no deterministic model side for the batch and the probes
+      let tight := nl < 24 || rl < 24
+      let bOut := if tight then bOut.map (fun _ => "B:~") else bOut
+      let pOut := if tight then pOut.map (fun _ => "P:~") else pOut
       pure (" | ".intercalate (wOut ++ bOut ++ pOut))
     | _ => none
   | _ => none
@@ -265,10 +270,23 @@ def handleStub (t : List String) : Option String :=
     pure (boolStr ok ++ " n=" ++ toString n)
   | _ => none
 
+/-- `acl <allow nets> <deny nets> <ip>` : `AccessControlSet::denied` (`err` = the builder rejects an
+allow list without any deny network) -/
+def handleAcl (t : List String) : Option String :=
+  match t with
+  | [allow, deny, ip] => do
+    let allow ← parseList allow "," parseNet
+    let deny ← parseList deny "," parseNet
+    let ip ← parseIp ip
+    if deny.isEmpty && !allow.isEmpty then pure "err"
+    else pure (boolStr (Acs.denied ⟨allow, deny⟩ ip))
+  | _ => none
+
 def step (s : State) (toks : List String) : State × String :=
   match toks with
   | "res" :: rest => (s, (handleRes rest).getD "bad-op")
   | "conc" :: rest => (s, (handleRes rest).getD "bad-op")
+  | "acl" :: rest => (s, (handleAcl rest).getD "bad-op")
   | "stub" :: rest => (s, (handleStub rest).getD "bad-op")
   | _ => (s, "bad-op")
 
